@@ -1221,7 +1221,7 @@ pseudo_tcp_socket_recv(PseudoTcpSocket *self, char * buffer, size_t len)
   if (available_space - priv->rcv_wnd >=
       min (priv->rbuf_len / 2, priv->mss)) {
     // !?! Not sure about this was closed business
-    gboolean bWasClosed = (priv->rcv_wnd == 0);
+    gboolean bWasClosed = ((priv->rcv_wnd >> priv->rwnd_scale) == 0);
 
     priv->rcv_wnd = available_space;
 
